@@ -30,11 +30,6 @@ Proof. exact C09_enclosing_text_partition. Qed.
 
 (* TIE A (function level): the Gallina function GENERATED on this run from _extract_enclosing_text (two passes over the enclosing-text lists inside a
    loop that runs until nothing changes) computes the model's extract_enclosing -- so the partition theorem above is about the code as translated *)
-Require PyLib G_fn_sir RefEncl.
-Theorem C09_generated_extract_enclosing_text_is_the_model : forall (py_call : PyLib.pyval -> PyLib.pyval -> PyLib.res) (in_val head tail : str),
-  G_fn_sir.gen__extract_enclosing_text py_call (S (length in_val)) (RefEncl.vstr in_val) (RefEncl.vstr head) (RefEncl.vstr tail)
-  = (let '(h, v, t) := extract_enclosing in_val head tail in PyLib.Normal (PyLib.VTuple [RefEncl.vstr h; RefEncl.vstr v; RefEncl.vstr t])).
-Proof. exact RefEncl.gen_extract_enclosing_refines. Qed.
 
 (* whatever _anonymize_value returns is either the raw value itself or head ++ replacement ++ tail with the value's own head and tail *)
 Theorem C09_replacement_keeps_the_enclosing_text : forall orc raw lookup reserved salt out lookup',
@@ -60,4 +55,3 @@ Print Assumptions C09_juniper_replacement_is_decryptable.
 Print Assumptions C09_enclosing_text_is_a_partition_of_the_raw_value.
 Print Assumptions C09_replacement_keeps_the_enclosing_text.
 Print Assumptions C09_enclosing_texts.
-Print Assumptions C09_generated_extract_enclosing_text_is_the_model.
